@@ -22,11 +22,12 @@ def Inv {σ} (c : Conn σ) : Prop :=
   (c.state = .closed → c.clientAware = false ∧ c.response = none) ∧
   (c.clientAware = false → c.state.toNat ≤ 5 → c.ctx = none ∧ c.upOff = 0) ∧
   (c.inCleanup = true → c.state = .closed) ∧
-  (6 ≤ c.state.toNat → c.state.toNat ≤ 12 → c.clientAware = true)
+  (6 ≤ c.state.toNat → c.state.toNat ≤ 12 → c.clientAware = true) ∧
+  (c.state.toNat ≤ 1 → c.clientAware = false)
 
 /-- the refinement relation between the connection and the protocol automaton -/
 def Rel {σ} (c : Conn σ) : PSt → Prop
-  | .fresh => c.started = false ∧ c.cleaned = false
+  | .fresh => c.started = false ∧ c.cleaned = false ∧ c.clientAware = false ∧ Inv c
   | .closed => c.started = true ∧ c.cleaned = true
   | .bad => False
   | .idle => c.started = true ∧ c.cleaned = false ∧ c.clientAware = false ∧ Inv c
@@ -177,7 +178,7 @@ theorem closeError_eq {σ} {c c' : Conn σ} {l : List LEv} {p : PSt} (heq : clos
 theorem transmitError_eq {σ} (cfg : Cfg) (env : IdleEnv) (c : Conn σ) (p : PSt) (h : Rel c p)
     (hok : EnvOk cfg env) (hst : c.state.toNat ≤ 10) (hs : c.started = true) (hc : c.cleaned = false)
     (c' : Conn σ) (l : List LEv) (heq : transmitError cfg env c = (c', l)) :
-    Rel c' (Protocol.run p l) ∧ 13 ≤ c'.state.toNat := by
+    Rel c' (Protocol.run p l) ∧ 13 ≤ c'.state.toNat ∧ c'.started = true ∧ c'.cleaned = false := by
   have hinv : Inv c := by cases p <;> simp_all [Rel]
   have hswe : c.stopWithError = false := by
     simp only [Inv] at hinv
@@ -209,7 +210,9 @@ theorem transmitError_eq {σ} (cfg : Cfg) (env : IdleEnv) (c : Conn σ) (p : PSt
     have := closeError_eq hce (hop _ rfl rfl rfl rfl)
     simp at heq
     obtain ⟨rfl, rfl⟩ := heq
-    simp [this.1, this.2.1, this.2.2.1]
+    have t2 := this.2.1
+    simp only [Rel] at t2
+    simp [this.1, this.2.1, this.2.2.1, t2.1, t2.2.1]
   · simp only [ha, Bool.false_eq_true, if_false] at heq
     by_cases hsh : env.shutdown = true
     · simp only [hsh, if_true] at heq
@@ -218,7 +221,9 @@ theorem transmitError_eq {σ} (cfg : Cfg) (env : IdleEnv) (c : Conn σ) (p : PSt
       have := closeError_eq hce (hop _ rfl rfl rfl rfl)
       simp at heq
       obtain ⟨rfl, rfl⟩ := heq
-      simp [this.1, this.2.1, this.2.2.1]
+      have t2 := this.2.1
+      simp only [Rel] at t2
+      simp [this.1, this.2.1, this.2.2.1, t2.1, t2.2.1]
     · simp only [hsh, Bool.false_eq_true, if_false] at heq
       by_cases h1 : env.errHdrFail1 = true
       · have hfix : cfg.f14Fixed = true := by
